@@ -165,7 +165,8 @@ Section Binary.
       swim K V cmp fuel key k a = Ok (k', a') /\ 1 <= k' <= n /\ length a' = length a /\
       filled (upd a' k' (Some (key, val))) n /\
       ordered (upd a' k' (Some (key, val))) n /\
-      Permutation (slots (upd a' k' (Some (key, val))) 1 n) (slots (upd a k (Some (key, val))) 1 n).
+      Permutation (slots (upd a' k' (Some (key, val))) 1 n) (slots (upd a k (Some (key, val))) 1 n) /\
+      (forall m, m = 0 \/ n < m -> sl (upd a' k' (Some (key, val))) m = sl (upd a k (Some (key, val))) m).
   Proof.
     induction fuel as [|f IH]; intros key val n k a Hk Hlen Hfuel Hfill Hord Hgr.
     - lia.
@@ -194,7 +195,7 @@ Section Binary.
           assert (EF : sl F k = Some (key, val)) by (unfold F; apply sl_upd_eq; lia).
           assert (Hnew_p : le_opt (Some (key, val)) (Some p)).
           { simpl. pose proof (cmp_gt_lt cmp TO (fst p) key ltac:(lia)). lia. }
-          destruct (IH key val n (k / 2) a1) as (k' & a' & Hsw & Hk' & Hl' & Hf' & Ho' & Hp');
+          destruct (IH key val n (k / 2) a1) as (k' & a' & Hsw & Hk' & Hl' & Hf' & Ho' & Hp' & Hfr');
             try lia.
           -- (* filled *)
              intros i Hi. destruct (Nat.eq_dec i k) as [->|Hik]; [eauto|].
@@ -221,11 +222,12 @@ Section Binary.
              rewrite E3 by dlia.
              eapply le_opt_trans; [apply (Hord (k / 2)); dlia|]. rewrite <- Hpar. apply Hord; lia.
           -- exists k', a'. rewrite Hsw. repeat split; try lia; auto.
-             etransitivity; [exact Hp'|]. fold F1. fold F.
-             apply slots_swap with (i := k) (j := k / 2); try lia.
-             ++ now rewrite E2, Hp.
-             ++ now rewrite E1, EF.
-             ++ intros m H1 H2. now apply E3.
+             ++ etransitivity; [exact Hp'|]. fold F1. fold F.
+                apply slots_swap with (i := k) (j := k / 2); try lia.
+                ** now rewrite E2, Hp.
+                ** now rewrite E1, EF.
+                ** intros m H1 H2. now apply E3.
+             ++ intros m Hm. rewrite Hfr' by exact Hm. fold F1. apply E3; lia.
         * (* parent <= key: stop *)
           exists k, a. repeat split; try lia; auto.
           intros i Hi. destruct (Nat.eq_dec i k) as [->|Hik]; [|now apply Hord].
@@ -243,7 +245,9 @@ Section Binary.
       length a' = length a /\
       filled (upd a' k' (Some kv)) n /\
       ordered (upd a' k' (Some kv)) n /\
-      Permutation (slots (upd a' k' (Some kv)) 1 n) (slots (upd a k (Some kv)) 1 n).
+      Permutation (slots (upd a' k' (Some kv)) 1 n) (slots (upd a k (Some kv)) 1 n) /\
+      (forall m, m <> k -> m = 0 \/ n < m -> sl (upd a' k' (Some kv)) m = sl (upd a k (Some kv)) m) /\
+      (n < k -> k' = k).
   Proof.
     induction fuel as [|f IH]; intros n kv k a Hk Hkl Hlen Hfuel Hfill Hord Hgr.
     - (* no fuel: then 2k > n and the loop is over *)
@@ -304,7 +308,7 @@ Section Binary.
           assert (Hjk : j' / 2 = k) by dlia.
           assert (Hej_kv : le_opt (Some ej) (Some kv)).
           { simpl. apply (cmp_nlt_le cmp TO). lia. }
-          destruct (IH n kv j' a1) as (k' & a' & Hsk & Hk' & Hkl' & Hl' & Hf' & Ho' & Hp'); try lia.
+          destruct (IH n kv j' a1) as (k' & a' & Hsk & Hk' & Hkl' & Hl' & Hf' & Ho' & Hp' & Hfr' & _); try lia.
           -- intros i Hi. destruct (Nat.eq_dec i k) as [->|Hik]; [eauto|].
              destruct (Nat.eq_dec i j') as [->|Hij]; [eauto|].
              fold F1. rewrite E3 by assumption. apply Hfill; lia.
@@ -323,21 +327,35 @@ Section Binary.
              intros i Hi Hpar Hj2. fold F1. rewrite Hjk, E2, E3 by dlia.
              rewrite <- Hej, <- Hpar. apply Hord; dlia.
           -- exists k', a'. rewrite Hsk. repeat split; try lia; auto.
-             etransitivity; [exact Hp'|]. fold F1. fold F.
-             apply slots_swap with (i := k) (j := j'); try lia.
-             ++ now rewrite E2, Hej.
-             ++ now rewrite E1, EF.
-             ++ intros m H1 H2. now apply E3.
+             ++ etransitivity; [exact Hp'|]. fold F1. fold F.
+                apply slots_swap with (i := k) (j := j'); try lia.
+                ** now rewrite E2, Hej.
+                ** now rewrite E1, EF.
+                ** intros m H1 H2. now apply E3.
+             ++ intros m Hmk Hm. rewrite Hfr' by lia. fold F1. apply E3; lia.
   Qed.
 
   (** ** invariant and abstraction *)
+  (** exactly what the package's [verify()] checks, plus [n < len(heap)] *)
   Definition binv (h : bheap K V) : Prop :=
-    b_n K V h < length (b_arr K V h) /\ filled (b_arr K V h) (b_n K V h) /\ ordered (b_arr K V h) (b_n K V h).
+    b_n K V h < length (b_arr K V h) /\ filled (b_arr K V h) (b_n K V h) /\ ordered (b_arr K V h) (b_n K V h) /\
+    sl (b_arr K V h) 0 = None /\ (forall m, b_n K V h < m -> sl (b_arr K V h) m = None).
+
+  Lemma sl_repeat_none k m : sl (repeat None k) m = None.
+  Proof.
+    unfold sl. destruct (nth_error (repeat None k) m) as [x|] eqn:E; [|reflexivity].
+    apply nth_error_In, repeat_spec in E. now subst.
+  Qed.
+
+  Lemma sl_resize_ge (a : arr) size m : size <= m -> sl (resize K V a size) m = None.
+  Proof. intros H. apply sl_oob. now rewrite resize_length. Qed.
   Definition bbag (h : bheap K V) : list entry := slots (b_arr K V h) 1 (b_n K V h).
 
   Lemma binv_new size : binv (b_new K V size).
   Proof.
-    unfold binv, b_new; simpl. rewrite repeat_length. repeat split; try lia; intros i Hi; lia.
+    unfold binv, b_new; cbn [b_n b_arr]. rewrite repeat_length.
+    split; [lia|]. split; [intros i Hi; lia|]. split; [intros i Hi; lia|].
+    split; [apply (sl_repeat_none (S size))|]. intros m _. apply (sl_repeat_none (S size)).
   Qed.
 
   Lemma bbag_new size : bbag (b_new K V size) = [].
@@ -362,7 +380,7 @@ Section Binary.
     binv h -> exists h', b_insert K V cmp key val h = Ok h' /\ binv h' /\
                          Permutation (bbag h') ((key, val) :: bbag h).
   Proof.
-    intros (Hlen & Hf & Ho). unfold b_insert.
+    intros (Hlen & Hf & Ho & Hz & Hnil). unfold b_insert.
     set (a1 := if b_n K V h =? length (b_arr K V h) - 1 then resize K V (b_arr K V h) (length (b_arr K V h) * 2) else b_arr K V h).
     set (n := b_n K V h) in *.
     assert (Hsl : forall i, sl a1 i = sl (b_arr K V h) i).
@@ -375,7 +393,7 @@ Section Binary.
     set (F := upd a1 (S n) (Some (key, val))).
     assert (EF : forall m, m <> S n -> sl F m = sl (b_arr K V h) m).
     { intros m Hm. unfold F. rewrite sl_upd_neq by lia. apply Hsl. }
-    destruct (swim_ok (S n) key val (S n) (S n) a1) as (k & a2 & Hsw & Hk & Hl2 & Hf2 & Ho2 & Hp2); try lia.
+    destruct (swim_ok (S n) key val (S n) (S n) a1) as (k & a2 & Hsw & Hk & Hl2 & Hf2 & Ho2 & Hp2 & Hfr2); try lia.
     - intros i Hi. destruct (Nat.eq_dec i (S n)) as [->|Hne].
       + exists (key, val). apply sl_upd_eq. lia.
       + fold F. rewrite EF by assumption. apply Hf. lia.
@@ -383,7 +401,10 @@ Section Binary.
     - intros i Hi Hpar. dlia.
     - rewrite Hsw. simpl. rewrite aset_ok by lia. simpl.
       eexists. split; [reflexivity|]. split.
-      + unfold binv; simpl. rewrite upd_length. repeat split; try lia; assumption.
+      + unfold binv; simpl. rewrite upd_length.
+        split; [lia|]. split; [assumption|]. split; [assumption|]. split.
+        * rewrite Hfr2 by lia. fold F. rewrite EF by lia. exact Hz.
+        * intros m Hm. rewrite Hfr2 by lia. fold F. rewrite EF by lia. apply Hnil. lia.
       + unfold bbag; simpl. etransitivity; [exact Hp2|]. fold F.
         rewrite (slots_S F 1 n). simpl.
         rewrite (slots_ext F (b_arr K V h) 1 n) by (intros; apply EF; lia).
@@ -395,9 +416,9 @@ Section Binary.
     binv h -> exists h' r, b_delete K V cmp h = Ok (h', r) /\ binv h' /\
                            spec_step K V cmp eqv (bbag h) Delete (OEntry r) (bbag h').
   Proof.
-    intros (Hlen & Hf & Ho). unfold b_delete.
+    intros Hinv. pose proof Hinv as (Hlen & Hf & Ho & Hz0 & Hnil). unfold b_delete.
     destruct (Nat.eqb_spec (b_n K V h) 0) as [Hz|Hnz].
-    - exists h, None. split; [reflexivity|]. split; [now repeat split|].
+    - exists h, None. split; [reflexivity|]. split; [exact Hinv|].
       unfold bbag. rewrite Hz. simpl. constructor.
     - set (a := b_arr K V h) in *. set (n := b_n K V h) in *.
       destruct (Hf 1) as [ext Hext]; [lia|].
@@ -406,7 +427,7 @@ Section Binary.
       set (F := upd a 1 (Some kv)).
       assert (EF : forall m, m <> 1 -> sl F m = sl a m).
       { intros m Hm. unfold F. now rewrite sl_upd_neq by lia. }
-      destruct (sink_ok (S (n - 1)) (n - 1) kv 1 a) as (k & a2 & Hsk & Hk & Hkl & Hl2 & Hf2 & Ho2 & Hp2);
+      destruct (sink_ok (S (n - 1)) (n - 1) kv 1 a) as (k & a2 & Hsk & Hk & Hkl & Hl2 & Hf2 & Ho2 & Hp2 & Hfr2 & _);
         try lia.
       + intros i Hi. destruct (Nat.eq_dec i 1) as [->|Hne].
         * exists kv. apply sl_upd_eq. lia.
@@ -428,9 +449,20 @@ Section Binary.
         assert (Hl5 : n - 1 < length a5).
         { unfold a5. destruct (Nat.ltb_spec (n - 1) (length a4 / 4)); [rewrite resize_length; dlia | lia]. }
         exists {| b_n := n - 1; b_arr := a5 |}, (Some ext). split; [reflexivity|]. split.
-        * unfold binv; simpl. split; [exact Hl5|]. split.
+        * unfold binv; simpl. split; [exact Hl5|]. split; [|split; [|split]].
           -- intros i Hi. rewrite E5 by lia. apply Hf2. lia.
           -- intros i Hi. rewrite !E5 by dlia. apply Ho2. lia.
+          -- rewrite E5 by lia. unfold a3. rewrite Hfr2 by lia. fold F. rewrite EF by lia. exact Hz0.
+          -- intros m Hm.
+             assert (E4 : sl a4 m = None).
+             { unfold a4. destruct (Nat.eq_dec m n) as [->|Hmn].
+               - replace (n - 1 + 1) with n by lia. apply sl_upd_eq. unfold a3. rewrite upd_length. lia.
+               - rewrite sl_upd_neq by lia. unfold a3. rewrite Hfr2 by lia. fold F. rewrite EF by lia.
+                 apply Hnil. lia. }
+             unfold a5. destruct (n - 1 <? length a4 / 4); [|exact E4].
+             destruct (Nat.lt_ge_cases m (length a4 / 2)).
+             ++ rewrite sl_resize by assumption. exact E4.
+             ++ now apply sl_resize_ge.
         * unfold bbag; simpl. fold a n. constructor.
           -- rewrite (slots_ext a5 a3 1 (n - 1)) by (intros; apply E5; lia).
              rewrite Hp2. fold F.
@@ -450,7 +482,7 @@ Section Binary.
   Lemma b_peek_ok h :
     binv h -> exists r, b_peek K V h = Ok r /\ spec_step K V cmp eqv (bbag h) Peek (OEntry r) (bbag h).
   Proof.
-    intros (Hlen & Hf & Ho). unfold b_peek.
+    intros (Hlen & Hf & Ho & _ & _). unfold b_peek.
     destruct (Nat.eqb_spec (b_n K V h) 0) as [Hz|Hnz].
     - exists None. split; [reflexivity|]. unfold bbag. rewrite Hz. constructor.
     - destruct (Hf 1) as [ext Hext]; [lia|]. rewrite (aget_ok _ _ _ Hext). simpl.
@@ -474,14 +506,16 @@ Section Binary.
     exists h' r, b_act K V cmp eqv a h = Ok (h', r) /\ binv h' /\
                  spec_step K V cmp eqv (bbag h) a r (bbag h').
   Proof.
-    intros Hinv Hnm. pose proof Hinv as (Hlen & Hf & Ho).
+    intros Hinv Hnm. pose proof Hinv as (Hlen & Hf & Ho & Hz & Hnil).
     destruct a as [k v| | | | | |k|v|j]; simpl.
     - destruct (b_insert_ok k v h Hinv) as (h' & -> & Hi' & Hp). simpl.
       exists h', ONone. split; [reflexivity|]. split; [assumption|]. now constructor.
     - destruct (b_delete_ok h Hinv) as (h' & r & -> & Hi' & Hs). simpl. eauto.
     - destruct (b_peek_ok h Hinv) as (r & -> & Hs). simpl. eauto.
     - exists (b_delete_all K V h), ONone. split; [reflexivity|]. split.
-      + unfold binv, b_delete_all; simpl. rewrite repeat_length. repeat split; try lia; intros i Hi; lia.
+      + unfold binv, b_delete_all; cbn [b_n b_arr]. rewrite repeat_length.
+        split; [lia|]. split; [intros i Hi; lia|]. split; [intros i Hi; lia|].
+        split; [apply sl_repeat_none|]. intros m _. apply sl_repeat_none.
       + unfold bbag at 2; simpl. constructor.
     - exists h, (ONat (b_n K V h)). split; [reflexivity|]. split; [assumption|].
       replace (b_n K V h) with (length (bbag h)) at 1; [constructor|].
